@@ -18,13 +18,12 @@ LEVEL_TEXT = ("For even N up to 16 (quick) / 32 (thorough) the full Jacobian of 
               "requests themselves (two N x N standard normals, plus six 3 x 3), the FFT= hook, families of calls that share (N, delta, L0) "
               "but differ in r0 / l0 within one process, the sub-harmonic increment (exactly the low-frequency sum, never negative) and a "
               "refinement ladder against the analytic structure function. Exploration over parameters; exact over draws.")
-LEVEL_NOTE = ("Trusted: the explicit Fourier sum in aomon/oracles/screen.py, NumPy. With an *integer* seed the sub-harmonic draws repeat the "
-              "first numbers of the high-frequency stream (two generators built from one seed); that correlation cannot be scripted "
-              "through the public interface and is outside what this check observes.")
+LEVEL_NOTE = ("Trusted: the explicit Fourier sum in aomon/oracles/screen.py, NumPy. Integer seeds cannot be scripted; they are tied to the "
+              "probed ensemble by demanding that seed=s gives the same screen as seed=numpy.random.default_rng(s) (one independent stream).")
 RULE = "case = (variant, N, delta, r0, L0, l0, probe kind); non-trivial always; distinct by parameters"
 ASSUMPTIONS = ["even N", "draws are injected with a numpy Generator passed as seed (the documented int seed goes through the same default_rng call)"]
 REQUIRED = ["phasescreen.py:ft_phase_screen", "phasescreen.py:ft_sh_phase_screen", "phasescreen.py:ift2"]
-REQUIRED_COUNTERS = ["probe_screens", "covariance_entries_compared", "draw_logs_checked", "same_grid_families"]
+REQUIRED_COUNTERS = ["int_seed_vs_generator_checks", "probe_screens", "covariance_entries_compared", "draw_logs_checked", "same_grid_families"]
 TIMEOUT = {"quick": 900, "thorough": 7200}
 
 
@@ -112,6 +111,14 @@ def check_family(ctx, aotools, N, rng):
         sj = fn(*args, seed=12345)
         ctx.check(np.array_equal(si, sj), "ft_phase_screen:int_seed_reproducible", "same integer seed gives different screens", wit)
 
+        # an integer seed must behave as the generator built from it: the whole screen is then one linear image of
+        # ONE standard-normal stream (independent draws), which is what the ensemble statement is about
+        for sd in (0, 7, int(rng.integers(0, 2 ** 31))):
+            for nm, f_ in (("ft_phase_screen", fn), ("ft_sh_phase_screen", aotools.ft_sh_phase_screen)):
+                s_int = f_(*args, seed=sd)
+                s_gen = f_(*args, seed=np.random.default_rng(sd))
+                ctx.count("int_seed_vs_generator_checks")
+                ctx.close("int_seed_equals_generator_from_seed:" + nm, s_int, s_gen, 1e-12 * sc, nm + ":integer_seed_is_not_one_independent_stream", dict(wit, seed=sd), scale=sc)
         # ---- sub-harmonic variant (N <= 12 keeps the cost low) ----
         if N <= 12 or vi == 0:
             sh_shapes = shapes + [(3, 3)] * 6
